@@ -4,30 +4,13 @@
   role abbreviations only (`unroles`).
 -/
 import FcLemmas.KTieMergeLoop
+import FcLemmas.KTieSteps
 
 set_option linter.unusedSimpArgs false
 set_option linter.unusedVariables false
 
 namespace Fc
 open Rs Src
-
-theorem StreamStepsF.resOf {w : World} (h : StreamStepsF w) (c : Nat) :
-    w.resOf c = .pend ∨ w.resOf c = .fin ∨ ∃ v, w.resOf c = .item v := by
-  unfold World.resOf World.stepOf
-  cases hs : w.scripts c with
-  | nil => exact Or.inl rfl
-  | cons s l => exact h c s (by rw [hs]; exact List.mem_cons_self ..)
-
-theorem StreamStepsF.tail {w w' : World} (h : StreamStepsF w) (c : Nat)
-    (hs : w'.scripts = upd w.scripts c (w.scripts c).tail) : StreamStepsF w' := by
-  intro c' st hm
-  rw [hs] at hm
-  by_cases hc : c' = c
-  · subst hc
-    simp at hm
-    exact h c' st (List.mem_of_mem_tail hm)
-  · simp [upd, hc] at hm
-    exact h c' st hm
 
 namespace TieMergeV
 open MergeV
